@@ -45,6 +45,7 @@ fn encode_with(json: &str, dtype: &str, shape: &[u64], fill: &[u8], data: &[Vec<
 pub fn exec(line: &str) -> String {
     let (v, m) = parse_line(line);
     if v.get(1).map(|s| s == "vdec").unwrap_or(false) { return exec_vdec(&m); }
+    if v.get(1).map(|s| s == "chains" || s == "chaindec").unwrap_or(false) { return crate::c03c::exec(line); }
     guarded(|| {
         let json = String::from_utf8(unhex(&m["json"])).unwrap();
         let mds: Vec<MetadataV3> = match serde_json::from_str(&json) { Ok(x) => x, Err(_) => return "err-json".into() };
@@ -231,13 +232,20 @@ pub fn generate(tier: &str, seed: u64) -> Vec<String> {
                 let (v2, kind) = match name { "float32" => ("f4", "f"), "float64" => ("f8", "f"), "uint8" => ("u1", "u"), "uint16" => ("u2", "u"), "int16" => ("i2", "i"), "uint32" => ("u4", "u"), _ => ("i4", "i") };
                 let scale = if kind == "f" { *rng.pick(&[1u32, 1, 2, 10, 100]) } else { 1 };   // an integer type stored as itself: scaling must fit the type
                 let offset = if kind == "f" { *rng.pick(&[0i32, 0, -3, 1000]) } else { 0 };
-                let elems: Vec<Vec<u8>> = if kind == "f" { (0..n).map(|_| { let v = (rng.below(200000) as f64 - 100000.0) / 8.0; if name == "float32" { (v as f32).to_le_bytes().to_vec() } else { v.to_le_bytes().to_vec() } }).collect() } else { elems };
-                let astype = if kind == "f" { *rng.pick(&["", "i4", "i8"]) } else { "" };
+                // float64 also at magnitudes a binary32 intermediate cannot carry (2^40 + eighths)
+                let big = name == "float64" && rng.chance(1, 3);
+                let elems: Vec<Vec<u8>> = if kind == "f" { (0..n).map(|_| { let v = (rng.below(200000) as f64 - 100000.0) / 8.0 + if big { 1099511627776.0 } else { 0.0 }; if name == "float32" { (v as f32).to_le_bytes().to_vec() } else { v.to_le_bytes().to_vec() } }).collect() } else { elems };
+                // stored as itself (explicitly), as a wider integer, or (floats) as a narrower one: the conversion must be exact
+                let astype = if kind == "f" { if big { *rng.pick(&["", "f8", "i8"]) } else { *rng.pick(&["", "i4", "i8", "f8"]) } } else { *rng.pick(&["", v2, "i8"]) };
+                let astype = if astype == "f8" && name == "float32" { "f4" } else { astype };
                 let cfg = format!("{{\"offset\":{},\"scale\":{},\"dtype\":\"{}\"{}}}", offset, scale, v2, if astype.is_empty() { String::new() } else { format!(",\"astype\":\"{}\"", astype) });
                 out.push(format!("c03 codec lossy=fso:{}:{}:{} dtype={} es={} shape={} fill={} modelled=0 model=fixedscaleoffset json={} data={}", offset, scale, kind, name, es2, n, hex(&vec![0u8; es2]),
                     hex(format!("[{{\"name\":\"numcodecs.fixedscaleoffset\",\"configuration\":{}}},{{\"name\":\"bytes\",\"configuration\":{{\"endian\":\"little\"}}}}]", cfg).as_bytes()), show_elems(&elems)));
             }
         }
+        // byte-exact prediction of very large chunks is left out (the list-based model is quadratic in the element
+        // count); they remain round-trip / declared-size cases
+        let modelled = modelled && shape.iter().product::<u64>() <= 12000;
         out.push(format!("c03 codec dtype={} es={} shape={} fill={} modelled={} model={} json={} data={}", dt.name,
             dt.es.map(|e| e.to_string()).unwrap_or("v".into()), nl(&shape), hex(&fill.1), modelled as u8, model.join("|"),
             hex(format!("[{}]", json.join(",")).as_bytes()), show_elems(&data)));
@@ -271,5 +279,7 @@ pub fn generate(tier: &str, seed: u64) -> Vec<String> {
             }
         }
     }
+    // (nested) sharded chains: see c03c.rs
+    out.extend(crate::c03c::generate(tier, seed));
     out
 }
